@@ -147,6 +147,24 @@ def run(ctx):
         if label == "interval":
             UB = [x + 1 for x in UB]
         run_case(ctx, ser(dict(kind="binary", op=op, A=dict(U=UA, P=PA, W=WA), B=dict(U=UB, P=PB, W=WB))))
+    for i in range(budget(ctx, 12, 150)):
+        # rational operands with the *same* weight tuple (and the same number of control points) on different knot vectors, and on
+        # the same knot vector: the denominators are the same function only in the second case
+        p_ = rng.randint(1, 2)
+        n_ = p_ + 1 + rng.randint(1, 2)
+        iv = rand_interval(rng)
+
+        def kv_n(deg):
+            inner = sorted(rng.sample(GRID, n_ - deg - 1))
+            return [iv[0]] * (deg + 1) + [iv[0] + (iv[1] - iv[0]) * x for x in inner] + [iv[1]] * (deg + 1)
+        UA = kv_n(p_)
+        UB = UA if i % 4 == 3 else kv_n(p_ if (rng.random() < 0.6 or n_ <= p_ + 2) else p_ + 1)
+        W = [F(rng.randint(1, 9), rng.randint(1, 3)) for _ in range(n_)]
+        if len(set(W)) == 1:
+            W[0] += 1
+        dim = rng.choice([1, 2])
+        run_case(ctx, ser(dict(kind="binary", op=rng.choice(["add", "sub", "add"]), A=dict(U=UA, P=rand_points(rng, n_, dim), W=W),
+                               B=dict(U=UB, P=rand_points(rng, n_, dim), W=list(W)))))
     for i in range(budget(ctx, 60, 600)):
         U, P, W = rand_curve(rng, pmax=3, nintmax=2)
         dim = len(P[0])
